@@ -185,6 +185,13 @@ Proof. change 255%N with (N.ones 8). rewrite N.land_ones. reflexivity. Qed.
 Lemma py_land_ones x n : N.land x (N.ones n) = (x mod 2 ^ n)%N.
 Proof. apply N.land_ones. Qed.
 
+Lemma py_land_65535 x : N.land x 65535 = (x mod 65536)%N.
+Proof. change 65535%N with (N.ones 16). rewrite N.land_ones. reflexivity. Qed.
+
+(** [for ..: acc += bytes([e])] and [bytes([e for ..])] are the same list *)
+Lemma concat_map_singleton {A B} (f : A -> B) (l : list A) : concat (map (fun i => [f i]) l) = map f l.
+Proof. induction l as [|x l IH]; [reflexivity|]. cbn [map concat app]. rewrite IH. reflexivity. Qed.
+
 Lemma py_shiftr_8 x : N.shiftr x 8 = (x / 256)%N.
 Proof. rewrite N.shiftr_div_pow2. reflexivity. Qed.
 
@@ -305,7 +312,7 @@ Ltac py_pre_split :=
 (** unfold every PyOps operation that is a plain renaming of a stdlib function *)
 Ltac py_unfold :=
   cbv beta zeta delta [py_len py_slice_from py_slice_to py_bytes py_range_map py_floordiv py_mod
-                       py_floordiv_N py_mod_N py_int_truediv py_int_truediv_N py_index].
+                       py_floordiv_N py_mod_N py_int_truediv py_int_truediv_N py_index py_concat].
 Ltac py_unfold_in H :=
   cbv beta zeta delta [py_len py_slice_from py_slice_to py_bytes py_range_map py_floordiv py_mod
                        py_floordiv_N py_mod_N py_int_truediv py_int_truediv_N py_index] in H.
